@@ -38,6 +38,9 @@ def run(rep, tier):
     control(rep)
     c19_1(rep, O, ix)
     pairing(rep, O, ix, "C19.2")
+    # "identical in every run": nothing of an earlier load in the same process may answer for a later one (inventory shared with C12)
+    from . import c12
+    common.guarded(rep, "C12.1", c12.inventory, rep, common.eff(rep), ix)
 
 
 def control(rep):
